@@ -168,7 +168,7 @@ func (e *Engine) addContractFile(cf *ContractFile) {
 		e.importNames[cf.PkgPath][alias] = path
 	}
 	for _, fc := range cf.Funcs {
-		if fc.Extern && cf.PkgPath != "" && !strings.ContainsAny(fc.Key, "/(") && !strings.HasPrefix(fc.Key, "iface ") {
+		if fc.Extern && cf.PkgPath != "" && !strings.ContainsAny(fc.Key, "/(") && !strings.HasPrefix(fc.Key, "iface ") && !strings.HasPrefix(fc.Key, "dyn ") {
 			// assumed contract of an in-repo function (body not verified): listed as an assumption
 			e.contracts[cf.PkgPath+"::"+fc.Key] = fc
 			fc.Key = cf.PkgPath + "::" + fc.Key + " (in-repo, assumed)"
